@@ -1,10 +1,12 @@
 (* C09 - Plugin hooks fire once, in stage and registration order, and can veto.
    Statements only; every proof is [exact <lemma>].  Model: Model/Plugins.v (repaired tree);
    [run ops = Some st] says the configuration history ran without Fatalf.  A history is any
-   list of SubRoute / Route* / SetUnknown* / AppendLeft / AppendRight in any order. *)
+   list of SubRoute / Route* / SetUnknown* / AppendLeft / AppendRight / Remove in any order:
+   every theorem below that speaks of [run ops] covers histories with removals. *)
 From Coq Require Import Strings.String Strings.Byte.
 From Coq Require Import List Arith NArith ZArith Bool Lia Sorting.Sorted.
-From Verif Require Import Base.Bytes Model.Plugins Proofs.PluginsProofs Proofs.PluginsFaultProofs.
+From Verif Require Import Base.Bytes Model.Plugins Proofs.PluginsProofs Proofs.PluginsFaultProofs
+  Proofs.PluginsRemoveProofs.
 Import ListNotations.
 
 (* effective_chain: after ANY history, the list the stage loops walk for a handler is
@@ -315,6 +317,66 @@ Theorem C09_history_never_exits : forall ops,
   exists st, run ops = Some st.
 Proof. exact run_total. Qed.
 Print Assumptions C09_history_never_exits.
+
+(* ---- PluginContainer.Remove ---- *)
+
+(* Only a plugin of the global chain can be removed; for any other name Remove returns an error
+   and the configuration is exactly what it was. *)
+Theorem C09_remove_unknown_changes_nothing : forall st nm,
+  has_name nm (global_flat st) = false ->
+  step st (ORemove nm) = Some st /\ remove_err st nm = true.
+Proof. exact remove_not_global_noop. Qed.
+Print Assumptions C09_remove_unknown_changes_nothing.
+
+(* After a successful removal the name is on no chain at all: not the global one, not the chain
+   of any router group, handler or unknown-handler registered before the removal. *)
+Theorem C09_removed_plugin_on_no_chain : forall ops st0 nm st,
+  run ops = Some st0 -> has_name nm (global_flat st0) = true -> step st0 (ORemove nm) = Some st ->
+  remove_err st0 nm = false /\
+  forall j, j < length (s_conts st) -> ~ In nm (map p_name (c_flat (get_cont st j))).
+Proof. exact removed_on_no_chain. Qed.
+Print Assumptions C09_removed_plugin_on_no_chain.
+
+(* ... so it never fires again, for no later message, at no stage, on either side. *)
+Theorem C09_removed_plugin_never_fires : forall ops st0 nm st,
+  run ops = Some st0 -> has_name nm (global_flat st0) = true -> step st0 (ORemove nm) = Some st ->
+  (forall other m e,
+     In e (trace_of (r_srv_prh (exchange other st m) ++ r_srv (exchange other st m))) -> fst e <> nm) /\
+    (forall other m e,
+     In e (trace_of (r_cli_prh (exchange st other m) ++ r_cli (exchange st other m))) -> fst e <> nm).
+Proof. exact removed_never_fires. Qed.
+Print Assumptions C09_removed_plugin_never_fires.
+
+(* Every other plugin keeps its place: the prescribed chains after the removal are the chains
+   before it with that one plugin filtered out of left and right (with C09_effective_chain and
+   C09_exchange_refines this fixes the hooks of every later message). *)
+Theorem C09_remove_keeps_the_others_in_order : forall ops nm,
+  let sp := spec_of ops in let sp' := spec_of (ops ++ [ORemove nm]) in
+  NoDup (map p_name (sp_left sp ++ sp_right sp)) ->
+  has_name nm (sp_left sp ++ sp_right sp) = true ->
+  sp_left sp' = filter (fun p => negb (N.eqb (p_name p) nm)) (sp_left sp) /\
+    sp_right sp' = filter (fun p => negb (N.eqb (p_name p) nm)) (sp_right sp) /\
+    sp_chains sp' = sp_chains sp /\ sp_handlers sp' = sp_handlers sp /\
+    sp_unk_call sp' = sp_unk_call sp /\ sp_unk_push sp' = sp_unk_push sp.
+Proof. exact remove_spec. Qed.
+Print Assumptions C09_remove_keeps_the_others_in_order.
+
+(* The variant that rebuilds the global container only (p.refresh() for p.refreshTree()): a
+   route registered before the removal still runs the removed plugin's hooks. *)
+Theorem C09_remove_shallow_refresh_refuted :
+  exists st, run_shallow witness_remove = Some st /\
+    handler_flats st = [(7%N, [1%N; 2%N; 3%N; 4%N])] /\
+    map p_name (global_flat st) = [2%N] /\
+    spec_handler_flats (spec_of witness_remove) = [(7%N, [2%N; 3%N; 4%N])] /\
+    In (1%N, PreReadCallBody) (trace_of (r_srv (exchange st st (MCall 7)))).
+Proof. exact remove_shallow_refuted. Qed.
+Print Assumptions C09_remove_shallow_refresh_refuted.
+
+Example C09_remove_on_witness :
+  exists st, run witness_remove = Some st /\
+    handler_flats st = [(7%N, [2%N; 3%N; 4%N])] /\ map p_name (global_flat st) = [2%N] /\
+    ~ In (1%N, PreReadCallBody) (trace_of (r_srv (exchange st st (MCall 7)))).
+Proof. exact remove_deep_on_witness. Qed.
 
 (* Non-vacuity: histories that run, with the repaired lists; a refusing hook. *)
 Example C09_repaired_on_witnesses :
